@@ -586,6 +586,40 @@ func runC20TypeTwins(ctx *core.Ctx) {
 			}
 			prev = sum
 		}
+		// the same for an item evaluated AFTER aggregation: one instance completes its windows over int readings,
+		// then its twin over float64 readings (a JSON decoder's numbers) - checked against what the statement says
+		agg := fmt.Sprintf("SELECT k, last_value(%s) == 7 AS ok7, count(*) AS c, collect(id) AS ids FROM stream GROUP BY k, CountingWindow(2)", a)
+		c2 := &c20Case{CaseRef: core.CaseRef{Stream: "c20types", Index: i}, Query: "type_twins_post_aggregation", SQL: agg, Other: agg, API: "emit", Mode: "type_twins"}
+		attrs2 := map[string]string{"query": c2.Query, "api": c2.API, "mode": c2.Mode}
+		for pass, mk := range []func(int) any{func(v int) any { return v }, func(v int) any { return float64(v) }} {
+			inst, err := eng.New(agg, eng.Opts{})
+			if err != nil {
+				ctx.Violate(core.Violation{Kind: "isolation.execute_error", Attrs: attrs2, Detail: err.Error() + "\n  sql: " + agg, Case: c2})
+				return
+			}
+			rec := eng.Attach(inst)
+			lasts := []int{7, 5, 7, 8}
+			for w, last := range lasts {
+				rec.Emit(Row{"id": 2 * w, "k": "x", a: 1 + w})
+				rec.Emit(Row{"id": 2*w + 1, "k": "x", a: mk(last)})
+			}
+			rec.WaitDeliveries(len(lasts), 5*time.Second)
+			rec.Quiesce(3, 20*time.Millisecond, 3*time.Second)
+			dels := rec.Deliveries()
+			inst.Stop()
+			for w, d := range dels {
+				if w >= len(lasts) || len(d.Rows) != 1 {
+					break
+				}
+				ctx.Count("type_twins.results_checked", 1)
+				want := lasts[w] == 7
+				if got, ok := d.Rows[0]["ok7"].(bool); !ok || got != want {
+					ctx.Violate(core.Violation{Kind: "isolation.result_differs_from_solo", Attrs: attrs2,
+						Detail: fmt.Sprintf("instance %d of 2 (readings as %T), window %d whose last reading is %d: `last_value(%s) == 7` = %#v, expected %v - the instance before it ran the same statement over readings of another Go type\n  sql: %s", pass+1, mk(1), w+1, lasts[w], a, d.Rows[0]["ok7"], want, agg), Case: c2})
+					return
+				}
+			}
+		}
 		ctx.Case("c20types"+sql, true, nil)
 	})
 }
